@@ -173,7 +173,7 @@ def gen_workflow(rng: random.Random, opts=None):
             'opts': run_opts}
 
 
-def gen_policy(rng, wf, kind='complete'):
+def gen_policy(rng, wf, kind='complete', opts=None):
     """kind 'complete': every finished task completes its required outputs;
     'any': failures / missing outputs allowed (stalls, incomplete tasks)."""
     outcomes = {}
@@ -182,7 +182,7 @@ def gen_policy(rng, wf, kind='complete'):
         oc = {'custom': [c + c for c in p['custom']], 'p_custom': 1.0, 'p_fail': 0.0,
               'exec_retries': p['exec_retries'], 'sub_retries': p['sub_retries'],
               'p_retry_fail': 0.6}
-        if kind == 'complete':
+        if kind in ('complete', 'cmd'):
             if p['opt_fail']:
                 oc['p_fail'] = 0.4
             # optional custom outputs may be skipped; required ones are always produced
@@ -194,19 +194,35 @@ def gen_policy(rng, wf, kind='complete'):
             oc['p_custom'] = rng.choice([1.0, 0.5])
             oc['p_submit_fail'] = rng.choice([0.0, 0.0, 0.2])
         outcomes[t] = oc
-    return {
+    extra = {}
+    if kind.startswith('cmd'):
+        extra = {'cmds': ['hold', 'release', 'hold', 'release', 'set_hold_point', 'release_hold_point',
+                          'stop_point', 'stop_task', 'stop_clean', 'stop_now', 'pause', 'resume'],
+                 'p_cmd': 0.12, 'restarts': rng.choice([0, 1, 2])}
+    pol = {
+        **extra,
         'max_steps': 260,
         'p_msg': rng.choice([0.4, 0.6, 0.8]),
         'p_noise': 0.0 if kind == 'complete' else rng.choice([0.0, 0.15]),
         'outcomes': outcomes,
     }
+    opts = opts or {}
+    if opts.get('polls'):
+        # C09/C10: the polls the scheduler requests are answered, routine polls happen, and (poll_late)
+        # a poll result may be overtaken by job messages.  Drawn after all other choices.
+        pol['p_poll'] = rng.choice([0.3, 0.6, 0.9])
+        pol['p_spoll'] = rng.choice([0.0, 0.05, 0.15])
+        pol['poll_late'] = rng.random() < opts.get('p_poll_late', 0.0)
+    if opts.get('noise') is not None and kind != 'complete':
+        pol['p_noise'] = opts['noise']
+    return pol
 
 
 def gen_case(seed: int, kind='complete', opts=None):
     rng = random.Random(seed)
     wf = gen_workflow(rng, opts)
     return {'id': f'{kind}{seed}', 'flow': wf['flow'], 'seed': seed, 'opts': wf['opts'],
-            'policy': gen_policy(rng, wf, kind), 'ops': None, 'kind': kind}
+            'policy': gen_policy(rng, wf, kind, opts), 'ops': None, 'kind': kind}
 
 
 if __name__ == '__main__':
